@@ -30,7 +30,7 @@ def fresh_worktree():
 
 def demo_dest(d):
     notes = open(os.path.join(d, "notes.md")).read() if os.path.exists(os.path.join(d, "notes.md")) else ""
-    demo = [f for f in os.listdir(d) if f.endswith(".go")]
+    demo = sorted([f for f in os.listdir(d) if f.endswith(".go")], key=lambda f: (f != "demo_test.go", f))
     m = re.search(r'cp \S*demo\S*\.go\s+/tmp/seed[23]?-[a-z0-9]+/(\S+?\.go)', notes)
     if m:
         return demo, m.group(1)
@@ -56,6 +56,7 @@ def main():
         touched = sorted({"./" + os.path.dirname(l[6:].strip()) for l in open(os.path.join(d, "patch.diff")) if l.startswith("+++ b/")})
         touched = [t for t in touched if any(f.endswith(".go") for f in os.listdir(os.path.join(WT, t)))] or ["./internal/configs/..."]
         # 1. demo on HEAD
+        os.makedirs(os.path.dirname(os.path.join(WT, dest)), exist_ok=True)
         shutil.copy(os.path.join(d, demo[0]), os.path.join(WT, dest))
         rc, out = sh("go test %s%s -run TestDemo -count=1" % ("-race " if os.environ.get("SEED_RACE") else "", pkg), cwd=WT)
         meta["demo_without_change"] = "pass" if rc == 0 else "FAIL"
@@ -68,6 +69,7 @@ def main():
         meta["build_and_existing_tests_with_change"] = "pass" if rc == 0 else "FAIL: " + out[-400:]
         meta["ran"].append("go build ./... && go vet/test %s (patched) -> rc %d" % (" ".join(touched), rc))
         # 3. demo with patch
+        os.makedirs(os.path.dirname(os.path.join(WT, dest)), exist_ok=True)
         shutil.copy(os.path.join(d, demo[0]), os.path.join(WT, dest))
         rc, out = sh("go test %s%s -run TestDemo -count=1" % ("-race " if os.environ.get("SEED_RACE") else "", pkg), cwd=WT)
         meta["demo_with_change"] = "fail" if rc != 0 else "PASSES (not a demonstration)"
